@@ -93,3 +93,55 @@ Proof.
   apply forallb_forall. intros x Hx. apply in_map_iff in Hx as (y & <- & Hy).
   apply (norm_text_ordered L y 1%N). apply Hall. exact Hy.
 Qed.
+
+(* ---- the nesting counter is restored after every value ---- *)
+Lemma run_counter_app L : forall a b d,
+  run_counter L (a ++ b) d = match run_counter L a d with Some d' => run_counter L b d' | None => None end.
+Proof.
+  induction a as [|[|] a IH]; intros b d; cbn [app run_counter]; [reflexivity| |apply IH].
+  destruct (max_depth L <=? d); [reflexivity|apply IH].
+Qed.
+Lemma events_dict l :
+  events (ODict l) = NEnter :: concat (map (fun kv => events (snd kv)) l) ++ [NExit].
+Proof.
+  cbn [events]. f_equal. f_equal. induction l as [|[k v] r IH]; [reflexivity|].
+  cbn [map concat snd]. rewrite <- IH. reflexivity.
+Qed.
+Lemma run_counter_all L d (l : list (list nest_ev)) :
+  Forall (fun evs => run_counter L evs d = Some d) l -> run_counter L (concat l) d = Some d.
+Proof.
+  induction 1 as [|x r Hx _ IH]; [reflexivity|]. cbn [concat]. rewrite run_counter_app, Hx. exact IH.
+Qed.
+Lemma depth_restored_obj L : forall o d, wf_obj L d o = true -> run_counter L (events o) d = Some d.
+Proof.
+  induction o as [| | | | | |l IH|l IH| | |] using obj_ind2; intros d Hw; try reflexivity.
+  - cbn [wf_obj] in Hw. apply andb_true_iff in Hw as [Hw Hall]. apply andb_true_iff in Hw as [Hd _].
+    apply N.ltb_lt in Hd. cbn [events run_counter].
+    replace (max_depth L <=? d) with false by (symmetry; apply N.leb_gt; exact Hd).
+    rewrite run_counter_app, (run_counter_all L (d + 1)).
+    + cbn [run_counter]. f_equal. lia.
+    + rewrite forallb_forall in Hall. rewrite Forall_forall in IH.
+      apply Forall_forall. intros evs He. apply in_map_iff in He as (x & <- & Hx). apply IH; auto.
+  - rewrite events_dict. cbn [wf_obj] in Hw. apply andb_true_iff in Hw as [Hw Hall].
+    apply andb_true_iff in Hw as [Hw _]. apply andb_true_iff in Hw as [Hd _].
+    apply N.ltb_lt in Hd. cbn [run_counter].
+    replace (max_depth L <=? d) with false by (symmetry; apply N.leb_gt; exact Hd).
+    rewrite run_counter_app, (run_counter_all L (d + 1)).
+    + cbn [run_counter]. f_equal. lia.
+    + rewrite forallb_forall in Hall. rewrite Forall_forall in IH.
+      apply Forall_forall. intros evs He. apply in_map_iff in He as (x & <- & Hx).
+      specialize (Hall x Hx). apply andb_true_iff in Hall as [_ Hv]. apply IH; auto.
+  - cbn [wf_obj] in Hw. apply N.ltb_lt in Hw. cbn [events run_counter].
+    replace (max_depth L <=? d) with false by (symmetry; apply N.leb_gt; exact Hw). f_equal. lia.
+Qed.
+(* any number of values one after another: the counter is where it was, whatever the width *)
+Lemma depth_restored_lemma L : forall os d,
+  forallb (wf_obj L d) os = true ->
+  run_counter L (concat (map events os)) d = Some d /\
+  (forall o, In o os -> run_counter L (events o) d = Some d).
+Proof.
+  intros os d Hw. rewrite forallb_forall in Hw. split.
+  - apply run_counter_all. apply Forall_forall. intros evs He.
+    apply in_map_iff in He as (x & <- & Hx). apply depth_restored_obj. apply Hw. exact Hx.
+  - intros o Ho. apply depth_restored_obj. apply Hw. exact Ho.
+Qed.
